@@ -1040,6 +1040,97 @@ def pop_last_idiom(program, log):
                        f'iteration read as {xs}[-1] / {xs}[:-1]')
 
 
+def rpartition_keys(program, log):
+    """`p, s, last = k.rpartition(c)` followed by a walk over `p.split(c)`
+    that is guarded by `s` (the separator found) reads `ks = k.split(c);
+    last = ks[-1]` and a walk over `ks[:-1]`: when c occurs in k, p is
+    c.join(ks[:-1]) and p.split(c) == ks[:-1]; when it does not, s is '' and
+    ks[:-1] is empty.  (A guard on `p` is NOT the same thing - p is '' also
+    for k = c + 'x' - and is left alone.)"""
+    for f in program.all_functions():
+        fn = f.node
+        for blk in [n for n in ast.walk(fn) if hasattr(n, 'body')
+                    and isinstance(getattr(n, 'body'), list)]:
+            for st in list(blk.body):
+                if not (isinstance(st, ast.Assign) and len(st.targets) == 1
+                        and isinstance(st.targets[0], ast.Tuple)
+                        and len(st.targets[0].elts) == 3
+                        and all(isinstance(e, ast.Name)
+                                for e in st.targets[0].elts)
+                        and isinstance(st.value, ast.Call)
+                        and isinstance(st.value.func, ast.Attribute)
+                        and st.value.func.attr == 'rpartition'
+                        and len(st.value.args) == 1):
+                    continue
+                p_, s_, l_ = [e.id for e in st.targets[0].elts]
+                k_, c_ = st.value.func.value, st.value.args[0]
+                ctext = ast.dump(c_)
+
+                def is_split(n):
+                    return (isinstance(n, ast.Call) and isinstance(
+                        n.func, ast.Attribute) and n.func.attr == 'split'
+                        and isinstance(n.func.value, ast.Name)
+                        and n.func.value.id == p_ and len(n.args) == 1
+                        and ast.dump(n.args[0]) == ctext)
+
+                def is_empty(n):
+                    return isinstance(n, (ast.Tuple, ast.List)) and not n.elts
+
+                ks = f'{p_}·parts'
+                sl = lambda: ast.Subscript(
+                    ast.Name(ks, ast.Load()), ast.Slice(None, ast.UnaryOp(
+                        ast.USub(), ast.Constant(1)), None), ast.Load())
+                plan = []       # (kind, node, parent-holder)
+                used = set()
+                for n in ast.walk(fn):
+                    if isinstance(n, ast.IfExp) and isinstance(
+                            n.test, ast.Name) and n.test.id == s_ \
+                            and is_split(n.body) and is_empty(n.orelse):
+                        plan.append(('ifexp', n))
+                        used |= {id(n.test), id(n.body.func.value)}
+                    if isinstance(n, ast.If) and isinstance(
+                            n.test, ast.Name) and n.test.id == s_ \
+                            and not n.orelse and len(n.body) == 1 \
+                            and isinstance(n.body[0], ast.For) \
+                            and is_split(n.body[0].iter):
+                        plan.append(('if', n))
+                        used |= {id(n.test), id(n.body[0].iter.func.value)}
+                others = [x for x in ast.walk(fn) if isinstance(x, ast.Name)
+                          and x.id in (p_, s_) and id(x) not in used
+                          and x not in st.targets[0].elts]
+                if not plan or others:
+                    continue
+                for kind, n in plan:
+                    if kind == 'ifexp':
+                        for par in ast.walk(fn):
+                            for fld, val in ast.iter_fields(par):
+                                if val is n:
+                                    setattr(par, fld, sl())
+                                elif isinstance(val, list) and n in val:
+                                    val[val.index(n)] = sl()
+                    else:
+                        loop = n.body[0]
+                        loop.iter = sl()
+                        for par in ast.walk(fn):
+                            for fld, val in ast.iter_fields(par):
+                                if isinstance(val, list) and n in val:
+                                    val[val.index(n)] = loop
+                i = blk.body.index(st)
+                blk.body[i:i + 1] = [
+                    ast.copy_location(ast.Assign(
+                        [ast.Name(ks, ast.Store())], ast.Call(
+                            ast.Attribute(k_, 'split', ast.Load()), [c_], [])),
+                        st),
+                    ast.copy_location(ast.Assign(
+                        [ast.Name(l_, ast.Store())], ast.Subscript(
+                            ast.Name(ks, ast.Load()), ast.UnaryOp(
+                                ast.USub(), ast.Constant(1)), ast.Load())),
+                        st)]
+                ast.fix_missing_locations(fn)
+                log.append(f'{f.where}: rpartition + walk guarded by the '
+                           'separator read as split / [-1] / [:-1]')
+
+
 def bool_dispatch_tables(program, log):
     """`_T = {False: a, True: b}` (a private module constant, never written)
     subscripted by a boolean expression is `b if <expr> else a`."""
@@ -1244,7 +1335,8 @@ def run(program):
     program.records = {}
     program.cow = set()
     for step in (explicit_properties, walrus_out, inline_simple_decorators,
-                 inline_aliases, slices_of_islice, pop_last_idiom,
+                 inline_aliases, rpartition_keys, slices_of_islice,
+                 pop_last_idiom,
                  bool_dispatch_tables, yield_from_genexp, copy_on_write_sets,
                  flattened_chainmaps,
                  unfold_records,
